@@ -90,6 +90,25 @@ impl std::fmt::Display for Http1ParseError {
 
 impl std::error::Error for Http1ParseError {}
 
+/// Length of the message head including its terminating blank line, or the whole
+/// buffer if the head is not complete yet.
+fn head_length(data: &[u8]) -> usize {
+    let crlf = data
+        .windows(4)
+        .position(|w| w == b"\r\n\r\n")
+        .map(|p| p.saturating_add(4));
+    let lf = data
+        .windows(2)
+        .position(|w| w == b"\n\n")
+        .map(|p| p.saturating_add(2));
+    match (crlf, lf) {
+        (Some(a), Some(b)) => a.min(b),
+        (Some(a), None) => a,
+        (None, Some(b)) => b,
+        (None, None) => data.len(),
+    }
+}
+
 /// HTTP/1.x Protocol Parser
 ///
 /// Provides parsing capabilities for HTTP/1.0 and HTTP/1.1 requests and responses according to RFC 7230.
@@ -114,7 +133,9 @@ impl Http1Parser {
     pub fn parse_request(&self, data: &[u8]) -> Result<Option<Http1Request>, Http1ParseError> {
         let start_time = Instant::now();
 
-        let data_str = std::str::from_utf8(data).map_err(|_| Http1ParseError::InvalidUtf8)?;
+        // Only the head is text: the body may be arbitrary bytes and must not affect parsing
+        let data_str = std::str::from_utf8(&data[..head_length(data)])
+            .map_err(|_| Http1ParseError::InvalidUtf8)?;
 
         if !data_str.contains("\r\n\r\n") && !data_str.contains("\n\n") {
             return Ok(None);
@@ -206,7 +227,9 @@ impl Http1Parser {
     pub fn parse_response(&self, data: &[u8]) -> Result<Option<Http1Response>, Http1ParseError> {
         let start_time = Instant::now();
 
-        let data_str = std::str::from_utf8(data).map_err(|_| Http1ParseError::InvalidUtf8)?;
+        // Only the head is text: the body may be arbitrary bytes and must not affect parsing
+        let data_str = std::str::from_utf8(&data[..head_length(data)])
+            .map_err(|_| Http1ParseError::InvalidUtf8)?;
 
         if !data_str.contains("\r\n\r\n") && !data_str.contains("\n\n") {
             return Ok(None);
